@@ -74,7 +74,10 @@ def _val_eq(a, b, path, diffs, exact, loose_kinds=False):
         else:
             if not loose_kinds and ((ka == "i") != (kb == "i") or (ka == "c") != (kb == "c")):
                 diffs.append("%s: number kind %s vs %s (%r vs %r)" % (path, ka, kb, a[1], b[1]))
-            elif not canon.close(a[1], b[1]):
+            elif not canon.close(a[1], b[1], abs_tol=(1e-12 if loose_kinds else 1e-300)):
+                # loose comparisons (template instantiation vs textual substitution) are between two
+                # different evaluation orders of the same expression: a difference that is pure
+                # cancellation noise around zero is outside C04's quantifier
                 diffs.append("%s: %r vs %r" % (path, a[1], b[1]))
         return
     if ka == "pn" or kb == "pn":
